@@ -17,7 +17,23 @@ def scalar_vals(rng):
     return sparse + [0, 1, 2, 3, N - 1, N - 2, 2**255, 2**255 + 1, 2**254, 2**256 % N, 2**128, 2**64, 2**64 - 1, 2**192, 2**128 + 5, 3 * 2**192 + 2**7, (N - 1) // 2] + [rng.randrange(N) for _ in range(6)]
 
 
+OBS = {'C13': 'isz,isone,eq,le', 'C07': 'enc', 'C14': 'bits', 'C06': 'none', 'C01': 'bits', 'C04': 'enc,unc', 'C05': 'isid,eq', 'C10': ''}
+
+
+def _scoped(pid, cases):
+    """history cases carry the property they are replayed for and the observers it is about"""
+    for c in cases:
+        if c.get('kind') in ('hidden-scalar', 'hidden-element') and 'op' not in c:
+            c['op'] = pid
+            c['a'] = OBS.get(pid, 'none')
+    return cases
+
+
 def cases_for(pid, seed):
+    return _scoped(pid, _cases_for(pid, seed))
+
+
+def _cases_for(pid, seed):
     rng = _rng(seed, int(pid[1:]))
     hx = lambda v: '%064x' % v
     rb = lambda n: ''.join('%02x' % rng.getrandbits(8) for _ in range(n))
@@ -98,6 +114,38 @@ def cases_for(pid, seed):
     return []
 
 
+def sswu_preimages(targets):
+    """field elements u for which an intermediate value of the simplified SWU map (RFC 9380 F.2: tv1 = Z u^2, tv2 = tv1^2 + tv1,
+    tv4 = -A' tv2, tv6 = tv4^3) equals one of the target values: the way a field-layer witness reaches the map through its only input"""
+    A_ = 0x3f8731abdd661adca08a5558f0f5d272e953d363cb6f0e5d405447c01a444533
+    Z_ = P - 11
+    def sqrt(a):
+        a %= P
+        r = pow(a, (P + 1) // 4, P)
+        return [r, P - r] if r * r % P == a else []
+    def cbrt(a):
+        a %= P
+        r = pow(a, (P + 2) // 9, P)
+        if pow(r, 3, P) != a:
+            return []
+        w = pow(2, (P - 1) // 3, P)
+        while w == 1:
+            w = pow(3, (P - 1) // 3, P)
+        return [r, r * w % P, r * w * w % P]
+    us = []
+    inv2 = pow(2, -1, P)
+    for t in targets:
+        t2s = [t % P, (-t * pow(A_, -1, P)) % P]                       # t as tv2, and the tv2 that gives tv4 = t
+        t2s += [(-c * pow(A_, -1, P)) % P for c in cbrt(t)]             # ... that gives tv6 = tv4^3 = t
+        for t2 in t2s:
+            for s_ in sqrt(1 + 4 * t2):
+                tv1 = (s_ - 1) * inv2 % P
+                for u in sqrt(tv1 * pow(Z_, -1, P)):
+                    if u not in us:
+                        us.append(u)
+    return us[:48]
+
+
 def witness_cases(pid, layer, wit, seed):
     """property-level replay cases derived from lower-layer witnesses (limb vectors on which a field / scalar kernel or method
     violates its contract): the witness becomes a projective scaling, a coordinate, a field element fed to the map, a scalar,
@@ -109,20 +157,20 @@ def witness_cases(pid, layer, wit, seed):
         for v in (w * pow(R, -1, mod) % mod, w % mod):     # the value whose Montgomery form is the witness, and the witness read as a value
             if v and v not in vals:
                 vals.append(v)
-    vals = vals[:8]
+    vals = vals[:16]
     cs = []
-    if not vals:
+    if not vals and not (layer == 'field' and pid == 'C11'):
         return cs
     if layer == 'field':
         # also scalings that make a COORDINATE of G / 5G equal to the witness value (the first products of the formulas then see it)
         g5x, g5y = 0x2f8bde4d1a07209355b4a7250a5c5128e88b84bddc619ab7cba8d569b240efe4, 0xd8ac222636e5e3d6d4dba9dda6c9c426f788271bab0d6840dca87d3aa6ac62d6
         zs = list(vals)
-        for v in vals[:4]:
+        for v in vals[:8]:
             for c_ in (GX, GY, g5x, g5y):
                 z = v * pow(c_, -1, P) % P
                 if z and z not in zs:
                     zs.append(z)
-        sc = ','.join(hx(v) for v in zs[:24])
+        sc = ','.join(hx(v) for v in zs[:48])
         if pid in ('C02', 'C01'):
             cs += [{'kind': 'el-scaled', 'a': hx(v), 'b': hx(1)} for v in vals] + [{'kind': 'el-scaled', 'a': hx(1), 'b': hx(v)} for v in vals]
             cs.append({'kind': 'el-battery', 'op': 'group', 'n': seed, 'a': sc})
@@ -152,6 +200,8 @@ def witness_cases(pid, layer, wit, seed):
                     cs += [{'kind': 'el-decode', 'a': '04' + hx(x) + hx(v)}, {'kind': 'el-decode', 'a': '%02x' % (2 + (v & 1)) + hx(x)}]
         if pid in ('C11', 'C08'):
             cs += [{'kind': 'sswu', 'a': hx(v)} for v in vals]
+        if pid == 'C11':
+            cs += [{'kind': 'sswu', 'a': hx(u)} for u in sswu_preimages(vals + [P - 1, 1, 2, pow(R, -1, P), pow(R, -1, P) * 2 % P])]
         if pid == 'C19':
             cs.append({'kind': 'schedule', 'a': ','.join(hx(k) for k in (0, 2, 3, N - 1, 2**255, 6))})
     else:
